@@ -230,6 +230,7 @@ func runBin(dir string, args []string, stdin []byte, strace []string) procResult
 		pr.timedOut = true
 	}
 	pr.stdout, pr.stderr = so.String(), se.String()
+	Beat()
 	if strace != nil {
 		if b, err := os.ReadFile(slog); err == nil {
 			pr.injected = bytes.Contains(b, []byte("(INJECTED)"))
@@ -256,7 +257,7 @@ func (c18) Run(t *testing.T, sc *Scenario) *Outcome {
 	dir := c18Dir()
 	r := prng.New(uint64(sc.Int("aseed", 1)), "argv")
 	flags := sc.Str("flags")
-	srcName := prng.Pick(r, []string{"prog.bcl", "conf.bcl", "noext", "x.y.bcl"})
+	srcName := prng.Pick(r, []string{"prog.bcl", "conf.bcl", "noext", "x.y.bcl", "lib.bcl", "basic.bcl", "abc.bcl", "a.b.bcl", "x..bcl", "bcl.bcl"})
 	os.WriteFile(filepath.Join(dir, srcName), sc.Src, 0o644)
 	defer os.Remove(filepath.Join(dir, srcName))
 	o.Hash = hash64(string(sc.Src)) ^ hash64(flags+sc.Str("mode")+sc.Str("filemode")+sc.Str("fault"))
@@ -327,6 +328,12 @@ func (c18) Run(t *testing.T, sc *Scenario) *Outcome {
 		os.Remove(filepath.Join(dir, bcb))
 		defer os.Remove(filepath.Join(dir, bcb))
 		want, dump := libraryRun(sc.Src, srcName, flags, nil)
+		if r.Chance(1, 2) && dump != nil {
+			// the dump file already exists from an earlier, larger program: it must be replaced, not overlaid
+			old := append(append([]byte{}, dump...), bytes.Repeat([]byte{0x17, 0x00, 0x2A}, r.Range(1, 700))...)
+			os.WriteFile(filepath.Join(dir, bcb), old, 0o644)
+			o.probe("bdump_over_existing_file", 1)
+		}
 		args := spellArgs(r, flags, srcName, extra)
 		got := runBin(dir, args, nil, nil)
 		if !cmpTriple(got, want, args, "--bdump run") {
